@@ -39,5 +39,6 @@ Emit == DoEmit => PrintT(ToJson([f |-> "esc", s |-> Join(s), e |-> Join(XmlEscap
 C(x) == <<x>>
 cChunks == {C("&"), C("<"), C(">"), C("\""), C("'"), C("a"), C(";"), C("#"), C(" "), C("\\"), C("\t"),     \* (backslash and tab: legal, not special -- written as they are)
             <<"&", "a", "m", "p", ";">>, <<"&", "#", "x", "4", "1", ";">>, <<"]", "]", ">">>, <<"<", "!", "[", "C", "D", "A", "T", "A", "[">>,
-            <<"<", "/", "a", ">">>, <<"&", "n", "b", "s", "p", ";">>}      \* (an end tag of the enclosing element: what follows it is OUTSIDE the first root)
+            <<"<", "/", "a", ">">>, <<"&", "n", "b", "s", "p", ";">>,
+            <<"<", "&", ">", "\"", "'", "<", "&", ">", "\"", "'", "<", "&", ">", "\"", "'", "<", "&", "a", "[", "b", "[", "0", "]", "]", ">", "1">>}     \* (a markup-heavy value, 17+ special characters, with ]]> in it: escaped like any other, never a CDATA section cut short)      \* (an end tag of the enclosing element: what follows it is OUTSIDE the first root)
 =============================================================================
